@@ -12,6 +12,8 @@ C0 == [name |-> "c0", dial |-> 0, rht |-> 0, ka |-> 0, idle |-> 0, maxidle |-> 0
 CN == [name |-> "cn", dial |-> 600, rht |-> 350, ka |-> 0 - 1000, idle |-> 27000, maxidle |-> 5]
 \* a response-header timeout longer than the widest slack of the time bound (1.5 s): one timeout more is outside every bound
 C3 == [name |-> "c3", dial |-> 500, rht |-> 2000, ka |-> 9000, idle |-> 25000, maxidle |-> 4]
+\* likewise a dial timeout longer than the widest slack
+C4 == [name |-> "c4", dial |-> 2000, rht |-> 700, ka |-> 8000, idle |-> 23000, maxidle |-> 6]
 MCConfigs == {C1, C2, C0, CN}
 BehConfigs == {C1, C2}
 MCDelays == {"zero", "below", "above"}
@@ -34,6 +36,16 @@ SlowCases == { [c |-> C0, first |-> Zero, kind |-> k, class |-> "slow", delay |-
 WrapCases == { [c |-> c, first |-> Zero, kind |-> k, class |-> cl, delay |-> DelayOf(cl, c.rht),
                 out |-> Outcome(c, DelayOf(cl, c.rht)), wrap |-> w, req |-> r] :
                 c \in BehConfigs, k \in Kinds, cl \in {"below", "above"}, w \in Wraps, r \in ReqKinds }
+\* (the three newer wrappings with GET and POST only)
+WrapCasesOf == { x \in WrapCases : x.wrap \in {"plain", "gzip", "log", "gzip+log"} \/ x.req \in {"GET", "POST"} }
+\* an upstream that never answers the SYN: gateway error within the dial timeout
+DialCases == { [c |-> C4, first |-> Zero, kind |-> k, class |-> "unreachable", delay |-> 0,
+                out |-> Unreachable(C4), req |-> r] : k \in Kinds, r \in {"GET", "POST"} }
+\* an informational response first, then a stall or the final status
+InfoCases == { [c |-> c, first |-> Zero, kind |-> k, class |-> cl, delay |-> DelayOf(cl, c.rht),
+                out |-> [Informed(c, DelayOf(cl, c.rht), "103", f) EXCEPT !.within = Outcome(c, DelayOf(cl, c.rht)).within],
+                wrap |-> w, pre |-> "103", final |-> f] :
+                c \in BehConfigs, k \in Kinds, cl \in {"below", "above"}, w \in {"plain", "gzip"}, f \in {200, 404} }
 \* (mentions a variable so that TLC does not evaluate it as a constant in every run)
 \* concurrent requests: k at once, hanging / fast upstream
 ConcCases == { [t |-> "conc", c |-> c, kind |-> k, n |-> n, class |-> cl, delay |-> DelayOf(cl, c.rht),
@@ -61,7 +73,9 @@ BodyCasesOf == { x \in BodyCases : x.body \in {100, LongBody(x.c)} }
 BehPrint == /\ \A b \in ConnCases : hist = <<>> /\ PrintT(ToJson(b))
             /\ \A b \in BodyCasesOf : hist = <<>> /\ PrintT(ToJson(b))
             /\ \A b \in BehCases \cup SlowCases : hist = <<>> /\ PrintT(ToJson(b))
-            /\ \A b \in WrapCases : hist = <<>> /\ PrintT(ToJson(b))
+            /\ \A b \in WrapCasesOf : hist = <<>> /\ PrintT(ToJson(b))
+            /\ \A b \in DialCases : hist = <<>> /\ PrintT(ToJson(b))
+            /\ \A b \in InfoCases : hist = <<>> /\ PrintT(ToJson(b))
 BehInit == Init /\ BehPrint
 BehSpec == BehInit /\ [][UNCHANGED vars]_vars
 =============================================================================
